@@ -4,6 +4,8 @@ cd "$(dirname "$0")/.." || exit 2
 for d in ${*:-seeded/*}; do
   id=$(basename $d)
   checks=$(/venv/bin/python -c "import json;print(' '.join(json.load(open('seeded/$id/meta.json'))['caught_by']))")
+  obs=$(/venv/bin/python -c "import json;print('obsolete' in json.load(open('seeded/$id/meta.json')))")
+  [ "$obs" = "True" ] && { echo "$id: (obsolete: neutralised by a later /repo repair, see meta.json)"; continue; }
   [ -z "$checks" ] && { echo "$id: (recorded as not caught)"; continue; }
   for c in $checks; do
     out=$(tools/run_seed.sh seeded/$id/patch.diff $c 2>&1)
